@@ -330,6 +330,10 @@ def monitor(tree, gts, final, rec, before, after, ids):
             bad.append(('input:task-passed-with-directive-not-carried-out', '%s: a source does not exist, the task went on' % uid))
         if not in_ok and st != 'FAILED':
             bad.append(('input:unstageable-directive-did-not-fail-task', '%s ended %s' % (uid, st)))
+        if in_ok and not passed_in:
+            bad.append(('input:task-with-stageable-directives-did-not-pass',
+                        '%s: every input directive can be carried out, yet the task never left input staging (state %s) - '
+                        'a directive of another task of the bulk failed' % (uid, st)))
         ran = passed_in
         if ran:
             staged = (g['outcome'] == 'DONE') or g['descr']['stage_on_error']
